@@ -72,6 +72,23 @@ def run(idx: Index, rep: Report, tier: str) -> None:
     rule2 = "C12.2 NNF-polarity-table"
     nn = idx.func("model.walkers.dnf.Nnf.get_nnf_expression")
     rep.note_function(nn.qualname)
+    # roles: `p, e, status = stack.pop()`; `solved` is the list the atom branch appends to; `arg` iterates e.args
+    from ..roles import unpack_targets, with_roles
+
+    tup = unpack_targets(nn.node, lambda v: isinstance(v, ast.Call) and call_name(v) == "pop" and isinstance(v.func, ast.Attribute) and isinstance(v.func.value, ast.Name))
+    if tup is None or len(tup.elts) != 3 or not all(isinstance(x, ast.Name) for x in tup.elts):
+        raise AnalysisError("anchor vanished: `polarity, expression, status = <stack>.pop()` in Nnf.get_nnf_expression")
+    roles = {tup.elts[0].id: "p", tup.elts[1].id: "e", tup.elts[2].id: "status"}
+    for a in walk_no_nested(nn.node):
+        if isinstance(a, ast.Assign) and a.targets[0] is tup:
+            roles[a.value.func.value.id] = "stack"
+    for c in walk_no_nested(nn.node):
+        if isinstance(c, ast.Call) and call_name(c) == "append" and isinstance(c.func.value, ast.Name) and c.func.value.id not in roles and c.args and not isinstance(c.args[0], ast.Tuple):
+            roles.setdefault(c.func.value.id, "solved")
+    for l in walk_no_nested(nn.node):
+        if isinstance(l, ast.For) and isinstance(l.target, ast.Name) and isinstance(l.iter, ast.Attribute) and l.iter.attr == "args" and norm(l.iter.value) == tup.elts[1].id:
+            roles[l.target.id] = "arg"
+    nn = with_roles(nn, roles)
     # locate the `if status:` split
     split = [i for i in walk_no_nested(nn.node) if isinstance(i, ast.If) and norm(i.test) == "status"]
     if not split:
